@@ -56,7 +56,33 @@ def body(c):
             x["schedule"] = s
             x["group"] = case["id"]
             cases.append(x)
-    # random orders for larger gate sets (thorough)
+    # random completion orders beyond the exhaustive bound: one list of 36 distinct objects whose item resolvers all suspend
+    big_objects = {"root": ts["query"], "b1": "B"}
+    for i in range(1, 37):
+        big_objects["a%d" % i] = "A"
+    big_trees, big_cases = [], {}
+    for bi, flavour in enumerate(("static", "dynamic")):
+        wg = gqlgen.WorldGen(ts, random.Random(c.seed * 3 + bi), objects=dict(big_objects), p_null=0.0)
+        wg.dyn_lists = flavour == "dynamic"
+        w = wg.world()
+        w["root"]["vals"]["nodes"] = {"k": "list", "items": [{"k": "ref", "id": "a%d" % i, "ty": "A"} for i in range(1, 37)]}
+        for i in range(1, 37):
+            w["a%d" % i]["vals"]["n"] = {"k": "int", "v": str(i), "gate": i}
+        flat = [{"d": 1, "k": "field", "name": "nodes", "alias": "", "on": "", "dir": ""},
+                {"d": 2, "k": "inline", "name": "", "alias": "", "on": "A", "dir": ""},
+                {"d": 3, "k": "field", "name": "n", "alias": "", "on": "", "dir": ""}]
+        cid = 100000 + bi
+        big_cases[cid] = {"id": 0, "flavour": flavour, "doc": gqlgen.tree_from_flat(flat, "query"), "opIndex": 1, "vars": [], "world": w, "schedule": []}
+        big_trees.append({"id": cid, "serial": False, "parent": [0] * 36, "root": [1] * 36, "after": [[] for _ in range(36)]})
+    big_sched = schedcheck.schedules(c, big_trees, "c05big", sim=12 if c.quick else 200)
+    for cid, case in big_cases.items():
+        for s in big_sched.get(cid, []):
+            if len(s) != 36:
+                continue
+            x = dict(case)
+            x["schedule"] = s
+            x["group"] = cid
+            cases.append(x)
     obs, verdicts = execcheck.run_cases(c, cases, "errors")
     per_group = {}
     for o in obs:
